@@ -663,9 +663,14 @@ class JobNameCalculator:
                 for vid in jobs[0].pkgs:
                     self.__packageName[vid] = name
             else:
-                for i, j in zip(range(len(jobs)), jobs):
+                i = 0
+                for j in jobs:
+                    # The numbered name must not clash with the name of
+                    # another job, e.g. a package that is called "name-1".
+                    i += 1
+                    while "{}-{}".format(name, i) in finalNames: i += 1
                     for vid in j.pkgs:
-                        self.__packageName[vid] = "{}-{}".format(name, i+1)
+                        self.__packageName[vid] = "{}-{}".format(name, i)
 
     def getJobDisplayName(self, step):
         if step.isPackageStep():
